@@ -11,6 +11,7 @@ BinOps == {"add", "sub", "mul", "div", "pow"}
 Fns == {"log", "exp", "sqrt", "logistic", "abs", "normal_cdf", "normal_pdf"}
 T1 == {<<o, a, b>> : o \in BinOps, a \in Leaves, b \in Leaves} \cup {<<"neg", a>> : a \in Leaves}
       \cup {<<"fn", f, a>> : f \in Fns, a \in Leaves} \cup {<<"fn2", f, a, b>> : f \in {"maximum", "minimum"}, a \in Leaves, b \in Leaves}
+      \cup {<<"ufn", f, a, b>> : f \in {"blend", "prodsq"}, a \in Leaves, b \in Leaves}
 Wrts == {<<"x", 0>>, <<"x", CNeg1>>, <<"x", 1>>, <<"y", 0>>, <<"y", CNeg1>>}
 \* evaluation point: x = 2, y = 3 at every shift (the steady state), p = 1/4
 Env == [k \in Wrts \cup {<<"p", 0>>} |-> IF k[1] = "x" THEN R(2) ELSE IF k[1] = "y" THEN R(3) ELSE Q(1, 4)]
